@@ -6,6 +6,7 @@ import (
 	"strings"
 
 	"github.com/AdguardTeam/urlfilter"
+	"github.com/AdguardTeam/urlfilter/filterlist"
 	"github.com/AdguardTeam/urlfilter/rules"
 
 	"verif/enum"
@@ -93,6 +94,21 @@ func c16CheckOrdered(c *Ctx, mods []string, engine bool) rules.CosmeticOption {
 		bad("NewMatchingResult", got)
 	}
 	if engine {
+		// the exception in a list loaded with IgnoreCosmetic, the cosmetic rules in another one
+		{
+			st, err := filterlist.NewRuleStorage([]filterlist.RuleList{
+				&filterlist.StringRuleList{ID: 0, RulesText: "##.g\n" + text + "\n", IgnoreCosmetic: true},
+				&filterlist.StringRuleList{ID: 1, RulesText: "##.g2\nexample.org##.s\n"},
+			})
+			if err != nil {
+				panic(HarnessError(err.Error()))
+			}
+			res := urlfilter.NewEngine(st).MatchRequest(rules.NewRequest("http://example.org/", "", rules.TypeDocument))
+			c.Run.Add("evaluations", 1)
+			if g := res.GetCosmeticOption(); g != exp {
+				bad("Engine.MatchRequest (exception in a list loaded with IgnoreCosmetic)", g)
+			}
+		}
 		e := urlfilter.NewEngine(stringStorage(text + "\n"))
 		// no referrer, a same-site referrer (the exception then also matches the
 		// referrer as a document) and a foreign referrer
@@ -167,6 +183,35 @@ func init() {
 			}
 			if mask%97 == 0 {
 				c.Run.Sample(map[string]any{"rule": c16RuleText(mods), "expected_option": c16Expected(mods)})
+			}
+		}
+		// a $badfilter exception with a strict subset of another exception's
+		// modifiers is not its twin: the option is the one of the full exception
+		cos := []string{"elemhide", "generichide", "jsinject", "urlblock", "important"}
+		for mask := 1; mask < 1<<len(cos); mask++ {
+			for sub := (mask - 1) & mask; ; sub = (sub - 1) & mask {
+				var full, part []string
+				for i, m := range cos {
+					if mask&(1<<i) != 0 {
+						full = append(full, m)
+					}
+					if sub&(1<<i) != 0 {
+						part = append(part, m)
+					}
+				}
+				lines := []string{c16RuleText(full), c16RuleText(append(append([]string{}, part...), "badfilter"))}
+				for _, order := range [][]string{lines, {lines[1], lines[0]}} {
+					res := urlfilter.NewEngine(stringStorage(joinLines(order) + "\n")).MatchRequest(rules.NewRequest("http://example.org/", "", rules.TypeDocument))
+					c.Run.Add("evaluations", 1)
+					if g, exp := res.GetCosmeticOption(), c16Expected(full); g != exp {
+						c.Run.Violate(ev.Violation{Pred: "option-equals-all-minus-union", Sig: map[string]any{"mods": full, "badfilter_subset": part},
+							What:   fmt.Sprintf("Engine.MatchRequest over %q gives cosmetic option %03b, expected %03b (the $badfilter rule is not the twin of the exception)", order, g, exp),
+							Replay: map[string]any{"mods": full}})
+					}
+				}
+				if sub == 0 {
+					break
+				}
 			}
 		}
 		// monotone under adding a modifier (every edge of the subset lattice)
